@@ -13,7 +13,8 @@
   ill-formed body when the named hypothesis is dropped.
 -/
 import ExoModel.Props.C04
-import ExoModel.Lemmas.WfShapes4
+import ExoModel.Lemmas.WfShapes5
+import ExoModel.Lemmas.WfTieSound
 import ExoModel.Lemmas.WfShapesAlpha
 import ExoModel.Lemmas.WfCfg
 
@@ -490,6 +491,60 @@ example : breaks (multLoops sK) [.body 0] Γ0
     [.loop sI (num 0) (rd sN) [.loop sJ (num 0) (num 4)
       [.loop sK (num 0) (rd sJ) (plainBody sK) false] false] false] = true := by decide
 
+/-! ### lift_scope: the four shapes other than loop-in-loop (= `reorderLoops`) -/
+
+/-- `if a: (if b: A else: B) else: C ↦ if b: (if a: A else: C) else: (if a: B else: C)` — no side
+    condition (the outer `else` block is COPIED into both branches: the scopes stay disjoint, so
+    `wfL` holds, but the binders of `C` are no longer distinct `Sym`s — the real `DoLiftScope` does
+    not rename either, see docs/C04Shapes.md) -/
+theorem lift_if_then_wf_anywhere (path : Path) (Γ Γs : Env) (body body' site : List Stmt)
+    (h : rewriteAt liftIfThen path body = some body') (hw : (wfL Γ body).isSome = true)
+    (hs : siteAt path Γ body = some (Γs, site)) : (wfL Γ body').isSome = true :=
+  shape_wf_anywhere _ WfTie.always (fun Γ ss r hr _ hw => liftIfThen_local Γ ss r hr hw)
+    path Γ Γs body body' site h hw hs rfl
+
+/-- `if a: A else: (if b: B else: C) ↦ if b: (if a: A else: B) else: (if a: A else: C)` -/
+theorem lift_if_else_wf_anywhere (path : Path) (Γ Γs : Env) (body body' site : List Stmt)
+    (h : rewriteAt liftIfElse path body = some body') (hw : (wfL Γ body).isSome = true)
+    (hs : siteAt path Γ body = some (Γs, site)) : (wfL Γ body').isSome = true :=
+  shape_wf_anywhere _ WfTie.always (fun Γ ss r hr _ hw => liftIfElse_local Γ ss r hr hw)
+    path Γ Γs body body' site h hw hs rfl
+
+/-- `if c: for i: A ↦ for i: if c: A` — no side condition -/
+theorem lift_for_out_of_if_wf_anywhere (path : Path) (Γ Γs : Env) (body body' site : List Stmt)
+    (h : rewriteAt liftForOutOfIf path body = some body') (hw : (wfL Γ body).isSome = true)
+    (hs : siteAt path Γ body = some (Γs, site)) : (wfL Γ body').isSome = true :=
+  shape_wf_anywhere _ WfTie.always (fun Γ ss r hr _ hw => liftForOutOfIf_local Γ ss r hr hw)
+    path Γ Γs body body' site h hw hs rfl
+
+/-- `for i: (if c: A else: B) ↦ if c: (for i: A) else: (for i: B)` — hypothesis: the condition does
+    not mention the iterator -/
+theorem lift_if_out_of_loop_wf_anywhere (path : Path) (Γ Γs : Env) (body body' site : List Stmt)
+    (h : rewriteAt liftIfOutOfLoop path body = some body') (hw : (wfL Γ body).isSome = true)
+    (hs : siteAt path Γ body = some (Γs, site)) (hok : liftIfOutOfLoopOk site = true) :
+    (wfL Γ body').isSome = true :=
+  shape_wf_anywhere _ (fun _ => liftIfOutOfLoopOk)
+    (fun Γ ss r hr ho hw => liftIfOutOfLoop_local Γ ss r hr ho hw) path Γ Γs body body' site h hw hs hok
+
+example : hyps liftIfThen WfTie.always [.body 0, .body 0] Γ0
+    [.loop sI (num 0) (rd sN)
+      [.ite (.binop .lt (rd sI) (num 2)) [.ite (.binop .gt (rd sN) (num 3)) (plainBody sI) [.pass]]
+        (richBody sI)] false] = true := by decide
+example : hyps liftIfElse WfTie.always [.body 0, .body 0] Γ0
+    [.loop sI (num 0) (rd sN)
+      [.ite (.binop .lt (rd sI) (num 2)) (richBody sI)
+        [.ite (.binop .gt (rd sN) (num 3)) (plainBody sI) []]] false] = true := by decide
+example : hyps liftForOutOfIf WfTie.always [.body 0] Γ0
+    [.ite (.binop .gt (rd sN) (num 3)) [.loop sI (num 0) (rd sN) (richBody sI) false] []] = true := by
+  decide
+example : hyps liftIfOutOfLoop (fun _ => liftIfOutOfLoopOk) [.body 0] Γ0
+    [.loop sI (num 0) (rd sN) [.ite (.binop .gt (rd sN) (num 3)) (richBody sI) (plainBody sI)] false] = true := by
+  decide
+/-- needed: the condition mentions the iterator -/
+example : breaks liftIfOutOfLoop [.body 0] Γ0
+    [.loop sI (num 0) (rd sN) [.ite (.binop .lt (rd sI) (num 3)) (richBody sI) []] false] = true := by
+  decide
+
 /-! ### cut_loop and specialize with general parameters -/
 
 /-- hypotheses: second iterator fresh, cut point well formed at the loop, second body (a
@@ -633,6 +688,49 @@ theorem shape_real_output_wf (f : Local) (Ok : Env → List Stmt → Bool)
   obtain ⟨Γ₁, hΓ₁⟩ := Option.isSome_iff_exists.1
     (shape_wf_anywhere f Ok hloc path Γ Γs body body' site h hw hs hok)
   exact alpha_wfL_top Γ Γ₁ body' real hα hΓ₁ hsc
+
+/-! ### soundness of the tie (ExoModel/WfTie.lean, driver op `wfok`) -/
+
+/-- **the well-formedness tie is sound**: for a real rewrite `before ↦ after` filed under the
+    primitive `name` (conventions of `Rw.check'`), if the site condition the tie evaluates holds
+    (`Rw.wfOk = ok true`), the output is the model rewrite up to renaming (`Rw.wfMatch = ok true`),
+    no binder of the output shadows a name in scope (`Rw.wfScope`) and the input is well formed,
+    then the output is well formed.  So in the tie `ok ∧ match ∧ scope ∧ wf_before ∧ ¬wf_after`
+    can only mean a broken exporter/driver, never a property of exo. -/
+theorem wf_tie_sound (name : String) (path : Path) (k : Nat) (flag : Bool) (before after : List Stmt)
+    (Γ : Env) (hok : Rw.wfOk name path k flag before after Γ = .ok true)
+    (hm : Rw.wfMatch name path k flag before after = .ok true)
+    (hsc : Rw.wfScope Γ after = true) (hw : (wfL Γ before).isSome = true) :
+    (wfL Γ after).isSome = true :=
+  WfTie.wfOk_sound name path k flag before after Γ hok hm hsc hw
+
+instance instDecEqTieAnswer : DecidableEq (Except String Bool) := fun a b =>
+  match a, b with
+  | .ok x, .ok y => if h : x = y then isTrue (by rw [h]) else isFalse (by intro e; cases e; exact h rfl)
+  | .error x, .error y =>
+    if h : x = y then isTrue (by rw [h]) else isFalse (by intro e; cases e; exact h rfl)
+  | .ok _, .error _ => isFalse (by intro e; cases e)
+  | .error _, .ok _ => isFalse (by intro e; cases e)
+
+def tieBefore1 : List Stmt :=
+  [.loop sJ (num 0) (rd sN) [.loop sI (num 0) (rd sN) (richBody sJ) false] false]
+def tieAfter1 : List Stmt := [.loop sK (num 0) (rd sN) (richCopy sK) false]
+def tieBefore2 : List Stmt := [.loop sI (num 0) (rd sN) (richBody sI) false]
+def tieAfter2 : List Stmt := [.loop sI (num 0) (rd sN)
+  (.loop sK (num 0) (num 4) [.alloc sT [.binop .add (rd sI) (num 1)]] false :: (richBody sI).drop 1) false]
+
+/-- non-vacuity: `remove_loop` of a loop whose body does not mention the iterator, against an
+    output with renamed binders -/
+example :
+    Rw.wfOk "remove_loop" [.body 0, .body 0] 0 false tieBefore1 tieAfter1 Γ0 = .ok true ∧
+    Rw.wfMatch "remove_loop" [.body 0, .body 0] 0 false tieBefore1 tieAfter1 = .ok true ∧
+    Rw.wfScope Γ0 tieAfter1 = true ∧ (wfL Γ0 tieBefore1).isSome = true := by decide +kernel
+/-- the tie's verdict on the recorded `add_loop` finding: the output is the model rewrite, the
+    site condition is false, the output is ill formed -/
+example :
+    Rw.wfOk "add_loop" [.body 0, .body 0] 0 false tieBefore2 tieAfter2 Γ0 = .ok false ∧
+    Rw.wfMatch "add_loop" [.body 0, .body 0] 0 false tieBefore2 tieAfter2 = .ok true ∧
+    (wfL Γ0 tieAfter2).isSome = false := by decide +kernel
 
 /-! ### the substitution lemma, stated on its own -/
 
